@@ -378,8 +378,15 @@ def announce(ctx, meth, signal, table):
                    len(dels) + len(pops) == 1,
                    'unexportObject must remove exactly the given path')
             ifl = body[1][1][1] if okb else None
-            okl = kind(ifl) == 'comp' and contains(
-                ifl, lambda x: is_method_call(x, 'getInterfaces'))
+            okl = (kind(ifl) == 'comp' and contains(
+                ifl, lambda x: is_method_call(x, 'getInterfaces'))) or any(
+                # ... or collected by an explicit loop over them, as
+                # exportObject does
+                ev[0] == 'loop' and contains(
+                    ev[3], lambda x: is_method_call(x, 'getInterfaces')) and
+                all(bp.outcome not in ('break', 'return', 'raise')
+                    for bp in ev[4])
+                for ev in p.trace)
             ctx.ob('C16.D2', fi.qualname, 'lists-all-interfaces', okl,
                    'the announcement must list every interface of the '
                    'object')
